@@ -1,6 +1,6 @@
 (* C18 -- Protobuf merge semantics, on the schema-directed model of the generated decoders (Msg.v).
    Only statements, each closed by [exact] of a lemma proved in Proofs/, with Print Assumptions beneath. *)
-From PVPb Require Import Wire Codec Msg Proofs.WireP Proofs.CodecP Proofs.TotalP Proofs.DepthP Proofs.ShapeP Proofs.MergeP Proofs.MergeCor Proofs.UnknownP Proofs.InterleaveP Conform Proofs.EngineP Proofs.ConformP Proofs.InterleaveAllP.
+From PVPb Require Import Wire Codec Msg Proofs.WireP Proofs.CodecP Proofs.TotalP Proofs.DepthP Proofs.ShapeP Proofs.MergeP Proofs.MergeCor Proofs.UnknownP Proofs.UnknownMapP Proofs.InterleaveP Conform Proofs.EngineP Proofs.ConformP Proofs.InterleaveAllP.
 Open Scope Z_scope.
 
 (* C18_concat: decoding e1 ++ e2 is decoding e1 and merging e2 into the result -- every schema, every message,
@@ -65,10 +65,27 @@ Theorem C18_unknown_nested_partial : forall sc, schema_ok sc = true ->
     oeq (msg_decode sc i (mkR (wrap ls (b1 ++ urecord t u ++ b2)) a)) (msg_decode sc i (mkR (wrap ls (b1 ++ b2)) a)).
 Proof. exact unknown_insert_nested. Qed.
 Print Assumptions C18_unknown_nested_partial.
-(* MISSING for the full statement C18_unknown_nested: levels that go through the value of a map entry
-   (map<K, Message>: the entry loop merges a (key, value) pair, its interchangeability relation is not set up) -- the
-   statement there is the same with [chain] extended by map steps costing two units.  The generated-message check
-   inserts unknown fields at every boundary of every level, map entries included, on every run. *)
+(* (the name is kept: this is the statement for levels through message-typed fields only; C18_unknown_nested below covers
+   the levels through map-entry values as well) *)
+
+(* C18_unknown_nested, the full statement: a level is either the record of a message-typed field (LMsg pre t post, as
+   above) or the record of a map<K, Message> field holding one entry (LMap pre t epre epost post: complete records of the
+   enclosing message before; inside the entry complete records [epre] -- e.g. the key -- before the VALUE record (field 2)
+   that holds the next level, arbitrary bytes [epost] after it; arbitrary bytes [post] after the entry).  A message
+   level costs one unit of the recursion budget, a map level two (the entry and its value both enter): the unknown
+   record must fit what is left, ulevels u <= RECURSION_LIMIT - cost ls.  chain2: the schema allows the chain and the
+   records before the embedded one merge, at every level; sizes_ok2: every enclosed body is shorter than 2^64. *)
+Theorem C18_unknown_nested : forall sc, schema_ok sc = true ->
+  forall i ls jn (fs : msgdesc) b1 b2 t u a,
+    chain2 sc depth_fuel i ctx_default ls jn -> nth_error sc jn = Some fs -> find_field fs t = None -> tag_ok t -> uwf u ->
+    ulevels u <= recursion_limit - cost ls ->
+    runs sc (depth_fuel - length ls) jn (ctx_default - cost ls) b1 ->
+    sizes_ok2 ls (b1 ++ urecord t u ++ b2) -> sizes_ok2 ls (b1 ++ b2) -> (i < length sc)%nat ->
+    oeq (msg_decode sc i (mkR (wrap2 ls (b1 ++ urecord t u ++ b2)) a)) (msg_decode sc i (mkR (wrap2 ls (b1 ++ b2)) a)).
+Proof. exact unknown_insert_nested2. Qed.
+Print Assumptions C18_unknown_nested.
+(* non-vacuity: Proofs/UnknownMapP.v unknown_nested_map_hypotheses (a map level whose entry has its key record before and an
+   unknown field behind the value record, then a message level; an unknown group with a nested group innermost). *)
 
 (* the loop-level fact behind it (any budget c, limit = what lies behind the body) *)
 Theorem C18_unknown_in_loop : forall d (sc : schema) i (fs : msgdesc) xs t u c tail a limit f f',
